@@ -394,6 +394,11 @@ func (this *Dataset) Search(ctx context.Context, query math.Vector, k uint) (ind
 }
 
 func (this *Dataset) SearchPartitions(ctx context.Context, partitionIds []uuid.UUID, query math.Vector, k uint) (index.SearchResult, error) {
+	// This is an RPC entry point of its own: the query has to be checked here as well
+	if err := this.checkDimension(&query); err != nil {
+		return nil, err
+	}
+
 	var err error
 	partitions := make([]*partition, len(partitionIds))
 	for i, partitionId := range partitionIds {
